@@ -131,7 +131,8 @@ def build_inputs(cases, rnd, quick):
             out.append(("list", args, tag))
         if rnd.random() < 0.3:
             glue = rnd.choice([" and ", " or ", " and not "])
-            out.append(("text", glue.join(args) + rnd.choice(["", " or b", " and (a or b)"]), {"family": "mixed-random", "f": f}))
+            tail = rnd.choice([" or b", " and (a or b)"] + ([""] if len(args) > 1 else []))
+            out.append(("text", glue.join(args) + tail, {"family": "mixed-random", "f": f}))
     for form, value in PROBES:
         out.append((form, value, {"family": "probe"}))
     return out
@@ -155,15 +156,24 @@ def report(chk, verdicts, byid, meta):
 def run(chk):
     from behave.tag_expression import TagExpressionProtocol
     rnd = random.Random(chk.seed)
-    cfgs = ["TagExprV1_MC_quick.cfg"] if chk.quick() else ["TagExprV1_MC_mid.cfg", "TagExprV1_MC_thorough.cfg"]
+    # quick: <=2 groups x <=2 alternatives over {a, b, nor}, all 5 styles, v2 trees of depth <=1
+    # mid:   <=3 x <=2 over {a, b}, all styles, v2 trees of depth <=2
+    # thorough: <=3 x <=3 over {a, b}, groups as multisets, styles 4 and 5
+    cfgs = ["TagExprV1_MC_quick.cfg"] if chk.quick() else ["TagExprV1_MC_quick.cfg", "TagExprV1_MC_mid.cfg", "TagExprV1_MC_thorough.cfg"]
     cases = []
+    seen = set()
     hits = {}
     for cfg in cfgs:
         # (coverage off: the state graph has four trivial actions, and -coverage slows TLC down six times here)
         r = chk.tlc("TagExprV1_MC", cfg, timeout=800, workers=WORKERS, coverage=False)
         for name in r.violated:
             chk.violation("C08.design." + name, "design:%s" % name, "TLC: invariant %s violated in TagExprV1_MC (%s)" % (name, cfg))
-        cases += [json.loads(t[1]) for t in r.by_tag("CASE")]
+        for t in r.by_tag("CASE"):
+            c = json.loads(t[1])
+            key = (c["kind"], json.dumps(c["f"] if c["kind"] == "cnf" else c["min"]))
+            if key not in seen:             # the same formula / tree emitted by two configurations
+                seen.add(key)
+                cases.append(c)
         # witnesses of the named exceptions: inputs on which the strict design-level law fails
         for t in r.by_tag("KFHIT"):
             form, value = as_value(json.loads(t[3]))
